@@ -419,7 +419,14 @@ func runC04(c *Ctx) {
 				} else if sent == 0 {
 					fail("silent_success_unsent", "nil returned although no commit was sent")
 				} else if strings.HasPrefix(lastReply, "w") {
-					// a wire form: whether it is an acknowledgement is the model's to say (correspondence)
+					// a wire form: whether it is an acknowledgement is the model's to say (correspondence); what the
+					// property says outright is that a second phase reported as failed or rolled back surfaces
+					var rc, st int
+					fmt.Sscanf(lastReply, "w%d.%d", &rc, &st)
+					switch st {
+					case 4, 5, 6, 7, 10, 11, 12, 13, 14:
+						fail("refused_commit", fmt.Sprintf("nil returned although the coordinator answered the commit with global status %d (not committed)", st))
+					}
 				} else if lastReply == "failed" {
 					fail("refused_commit", "nil returned although the coordinator answered the commit with result code Failed")
 				} else if lastReply != "ok" {
